@@ -6,6 +6,7 @@ import TF.Proofs.Shah
 import TF.Proofs.XFieldInv
 import TF.Proofs.BFieldMore
 import TF.Proofs.XFieldMore
+import TF.Proofs.GenBridgeBField
 /-!
 # C01 — base and extension field arithmetic is exact and canonical
 
@@ -538,5 +539,61 @@ theorem xfe_batch_inversion_partial (xs : List XF.X3) :
     XF.batchInversion [] = some [] ∧ (XF.zero ∈ xs → XF.batchInversion xs = none) :=
   ⟨rfl, TF.XFp.x_batchInversion_zero xs⟩
 example : XF.zero ∈ [XF.one, XF.zero] := by decide
+
+end TF.C01
+
+/-! ## regenerated-from-source bridge
+
+`BFieldElement::{mod_pow, mod_pow_u32, mod_pow_u64, inverse}` (with the nested `exp` of `inverse`) are **also regenerated
+from `b_field_element.rs` on every run** (`TF/Gen/BFieldLoops.lean`, `TF.Gen.Loops.bfe_*`, written by
+`tools/rs2lean_bfe.py`): `while` loops are fuel-indexed recursions (`none` = out of fuel), the `_ok` companion is true
+iff no `assert!` fails and no plain operation overflows.  The theorems below (proofs in `TF/Proofs/GenBridgeBField.lean`)
+say that the regenerated functions terminate within their fuel and return the hand model's value, for every base word
+and every `u64` exponent; the `…_transfer` corollaries restate `mod_pow_exact` / `inverse_exact` for the regenerated
+code.  A one-token change of one of these Rust functions changes `TF.Gen.Loops.bfe_*`; these theorems are then re-checked
+or break. -/
+namespace TF.C01
+open TF.Gen TF.BF TF.Model
+
+/-- regenerated `mod_pow` (the bit loop) = hand model, every base word, every `u64` exponent -/
+theorem gen_mod_pow_eq_model (a e : Nat) (he : e < 2 ^ 64) : Loops.bfe_mod_pow a e = some (BF.modPow a e) :=
+  TF.GenBridge.BField.gen_mod_pow_eq a e he
+example : Loops.bfe_mod_pow (bfe_new 7) 18446744069414584320 = some (bfe_new 1) ∧
+    Loops.bfe_mod_pow_ok (bfe_new 7) 18446744073709551615 = true ∧ Loops.bfe_mod_pow (bfe_new 7) 0 = some BF.one := by
+  decide +kernel
+
+/-- regenerated `mod_pow_u32` / `mod_pow_u64` = hand model -/
+theorem gen_mod_pow_u32_u64_eq_model (a e : Nat) :
+    (e < 2 ^ 32 → Loops.bfe_mod_pow_u32 a e = some (BF.modPow a e)) ∧
+    (e < 2 ^ 64 → Loops.bfe_mod_pow_u64 a e = some (BF.modPow a e)) :=
+  ⟨TF.GenBridge.BField.gen_mod_pow_u32_eq a e, TF.GenBridge.BField.gen_mod_pow_u64_eq a e⟩
+example : Loops.bfe_mod_pow_u32 (bfe_new 2) 32 = some (bfe_new 4294967296) := by decide +kernel
+
+/-- regenerated local `exp(base, k)` of `inverse` = `k` squarings -/
+theorem gen_inverse_exp_eq_model (base k : Nat) (hk : k < 2 ^ 64) :
+    Loops.bfe_inverse_exp base k = some (BF.sqN base k) :=
+  TF.GenBridge.BField.gen_exp_eq base k hk
+example : Loops.bfe_inverse_exp (bfe_new 2) 5 = some (bfe_new 4294967296) := by decide +kernel
+
+/-- regenerated `inverse` (addition chain) = hand model: the same chain value for every non-zero word; on zero the hand
+    model panics and the regenerated `_ok` flag is false (the `assert_ne!` fails) -/
+theorem gen_inverse_eq_model (x : Nat) :
+    BF.inverse x = (if x == BF.zero then none else Loops.bfe_inverse x) ∧ Loops.bfe_inverse_ok BF.zero = false :=
+  ⟨TF.GenBridge.BField.gen_inverse_eq x, TF.GenBridge.BField.gen_inverse_ok_zero⟩
+example : Loops.bfe_inverse (bfe_new 2) = some (bfe_new 9223372034707292161) ∧
+    Loops.bfe_inverse_ok (bfe_new 2) = true := by decide +kernel
+
+/-- **transfer**: `mod_pow_exact` and `inverse_exact` for the code as it is in the source now -/
+theorem gen_mod_pow_inverse_transfer (a : Nat) (ha : a < P) :
+    (∀ e, e < 2 ^ 64 → ∃ r, Loops.bfe_mod_pow a e = some r ∧ r < P ∧ bfe_value r = (bfe_value a) ^ e % P) ∧
+    (a ≠ BF.zero → ∃ r, Loops.bfe_inverse a = some r ∧ r < P ∧ (bfe_value r * bfe_value a) % P = 1) := by
+  refine ⟨fun e he => ⟨_, gen_mod_pow_eq_model a e he, (mod_pow_exact a ha e).1, (mod_pow_exact a ha e).2⟩, fun hnz => ?_⟩
+  obtain ⟨r, hr, hc, hm, _⟩ := (inverse_exact a ha).2 hnz
+  refine ⟨r, ?_, hc, hm⟩
+  have h := (gen_inverse_eq_model a).1
+  have hz : (a == BF.zero) = false := by simpa using hnz
+  rw [hz] at h
+  simpa [h] using hr
+example : (bfe_new 2) < P ∧ bfe_new 2 ≠ BF.zero := by decide +kernel
 
 end TF.C01
